@@ -555,10 +555,9 @@ def _set_param_contract(reg):
 
 def _set_param_replay():
     """Real SasviewModel of the cylinder: misspelt dispersity attributes must be refused."""
-    from sasmodels.sasview_model import load_standard_models, MODELS
-    if "cylinder" not in MODELS:
-        load_standard_models()
-    m = MODELS["cylinder"]()
+    from sasmodels.sasview_model import make_model_from_info
+    from sasmodels.core import load_model_info
+    m = make_model_from_info(load_model_info("cylinder"))()
     out, bad = {}, False
     for name in ("radius.nsigma", "length.Width", "radius.pd_n", "bogus.width", "sld.width"):
         try:
